@@ -222,6 +222,12 @@ def api_generate(cx: Ctx, op: dict, out_dir: str) -> typing.Dict[str, str]:
                 bld.set_target_language_configuration_override("reserved_identifiers", list(op["reserved"]))
             lctx = bld.create()
             cx.contexts[lkey] = lctx
+        # (what earlier invocations built is dropped BEFORE the new inputs are read: the new objects then live where the old ones did)
+        cx.generators.clear()
+        cx.gen_out.clear()
+        import gc
+
+        gc.collect()
         types = pydsdl.read_namespace(root_dir, lookups, allow_unregulated_fixed_port_id=True)
         if op.get("subset") is not None:
             keep = set(op["subset"])
